@@ -241,6 +241,19 @@ def run(prog, tier) -> Result:
                 return ("valid number of minor units rejected", f"minor_unit={k}: {exc_sig(o)}")
             return judge_nu(RF.const(Fraction(1, 10 ** k)))(o)
         cr.run("R08.2b", mnu, f"minor_unit = {k}", nu_setup(Num(RF.const(k), "int"), None), judge_k)
+    # smallest fractions that divide one (1/2, 1/4, 1/20, 1/1000) are accepted as given
+    for num_, den_ in ((1, 2), (1, 4), (1, 20), (1, 1000)):
+        sfc = Fraction(num_, den_)
+
+        def judge_sf(o, sfc=sfc):
+            if o.kind == "raise" and str(getattr(o.exc, "where", "")).startswith("MoneyMeta.new_unit"):
+                return ("valid smallest fraction rejected", f"smallest_fraction={sfc}: {exc_sig(o)}")
+            return judge_nu(RF.const(sfc))(o)
+        cr.run("R08.4", mnu, f"smallest_fraction = {sfc}", nu_setup(None, Num(RF.const(sfc), "dec")), judge_sf)
+    # ... and those that do not (2/5, 3/10), zero and negative ones are rejected
+    for num_, den_ in ((2, 5), (3, 10), (0, 1), (-1, 100)):
+        cr.run("R08.4", mnu, f"smallest_fraction = {Fraction(num_, den_)}",
+               nu_setup(None, Num(RF.const(Fraction(num_, den_)), "dec")), lambda o: expect_raise(o, ["ValueError"]))
     cr.run("R08.4", mnu, "minor_unit = -1", nu_setup(Num(RF.const(-1), "int"), None), lambda o: expect_raise(o, ["ValueError"]))
     cr.run("R08.4", mnu, "smallest_fraction given", nu_setup(None, Num(RF.atom(("k", "sf")), "dec")),
            judge_nu(RF.atom(("k", "sf"))))
